@@ -360,6 +360,11 @@ func runC07(c *vx.Ctx) {
 		maxLen = 3
 		prefixes = []string{"C14", "P5", "P16"}
 	}
+	if !c.Wants("own-blocks+mutations") {
+		c07Backlog(c)
+		c07MapOrder(c)
+		return
+	}
 	p := c.Part("own-blocks+mutations")
 	p.Bound("mempool_sequence_length", maxLen)
 	p.Bound("prefixes", prefixes)
@@ -385,6 +390,7 @@ outer:
 	if c.Shard == 0 {
 		p.States = int64(len(prefixes) * len(seqs))
 	}
+	c07Backlog(c)
 	c07MapOrder(c)
 }
 
@@ -480,6 +486,20 @@ func replayC07(c *vx.Ctx, v vx.Violation) string {
 		return replayViaVqm(v)
 	}
 	core.VScaleParams(core.VR1)
+	if v.Part == "etx-backlog" {
+		raw, _ := jsonMarshal(v.Replay)
+		var b struct {
+			Backlog c07BacklogCase `json:"backlog"`
+		}
+		if err := jsonUnmarshal(raw, &b); err != nil {
+			return "bad replay: " + err.Error()
+		}
+		_, d, _, h := c07BacklogRun(b.Backlog)
+		if h != "" {
+			return "harness: " + h
+		}
+		return d
+	}
 	raw, _ := jsonMarshal(v.Replay)
 	var cs c07Case
 	if err := jsonUnmarshal(raw, &cs); err != nil {
